@@ -177,6 +177,7 @@ func runLifecycle(args []string) error {
 						t.Emit(e)
 					}
 				}
+				deadL := map[int]bool{}
 				// byte strings of every length arrive on the real sockets - the empty datagram included, which only a
 				// socket can deliver (a 0-byte read is a datagram on UDP, not end of stream); the listener must still
 				// be serving afterwards
@@ -218,6 +219,10 @@ func runLifecycle(args []string) error {
 						if e, ok := roundTrip(i, a, byte(1+ki)); ok {
 							e["ev"], e["kind"], e["len"] = "dgs", kind, len(b)
 							t.Emit(e)
+							if e["res"] != "reply" {
+								deadL[i] = true // this listener no longer answers: recorded; nothing more to learn from it
+								break
+							}
 						}
 					}
 					if protoOf[i] != 4 {
@@ -228,6 +233,9 @@ func runLifecycle(args []string) error {
 				// (what the receive loop hands to a handler goroutine belongs to that datagram alone)
 				for i, a := range all {
 					const nb = 24
+					if deadL[i] {
+						continue
+					}
 					if protoOf[i] == 6 {
 						socks := make([]*net.UDPConn, 0, nb)
 						xids := make([]dhcpv6.TransactionID, 0, nb)
@@ -269,8 +277,16 @@ func runLifecycle(args []string) error {
 								}
 							}
 						}
+						misses := 0
 						for j := range socks {
-							read(j, 3*time.Second)
+							w := 3 * time.Second
+							if misses >= 2 {
+								w = 100 * time.Millisecond // not answering: do not wait 3 s for every client
+							}
+							read(j, w)
+							if got[j] == 0 {
+								misses++
+							}
 						}
 						time.Sleep(100 * time.Millisecond)
 						for j := range socks {
